@@ -357,9 +357,45 @@ def map_patch(report, db):
 
 
 # ---------------------------------------------------------------------------
+def access_path(e, value_name='value'):
+    """(kind, [attribute-name expressions...], wrapper) of an alias lambda
+    body: getattr(getattr(self, A), B) -> ('get', ['A', 'B'], None);
+    f(getattr(self, A)) -> ('get', ['A'], 'f');  setattr(X, B, g(value))."""
+    wrapper = None
+    if isinstance(e, ast.Call) and isinstance(e.func, ast.Name) and \
+            e.func.id not in ('getattr', 'setattr', 'delattr') and \
+            len(e.args) == 1:
+        wrapper = e.func.id
+        e = e.args[0]
+    if not (isinstance(e, ast.Call) and isinstance(e.func, ast.Name)
+            and e.func.id in ('getattr', 'setattr', 'delattr')):
+        return None
+    kind = {'getattr': 'get', 'setattr': 'set', 'delattr': 'del'}[e.func.id]
+    want_args = 3 if kind == 'set' else 2
+    if len(e.args) != want_args:
+        return None
+    path = [ast.unparse(e.args[1])]
+    obj = e.args[0]
+    while isinstance(obj, ast.Call) and isinstance(obj.func, ast.Name) and \
+            obj.func.id == 'getattr' and len(obj.args) == 2:
+        path.insert(0, ast.unparse(obj.args[1]))
+        obj = obj.args[0]
+    if ast.unparse(obj) != 'self':
+        return None
+    if kind == 'set':
+        v = e.args[2]
+        if isinstance(v, ast.Call) and isinstance(v.func, ast.Name) and \
+                len(v.args) == 1 and ast.unparse(v.args[0]) == value_name:
+            wrapper = v.func.id
+        elif ast.unparse(v) != value_name:
+            return None
+    return kind, path, wrapper
+
+
 def aliases(report, db):
     R = report.rule('R20.4', 'alias factories: getter, setter and deleter '
-                    'close over the same name(s), in the same order')
+                    'address the same attribute path; transforms are applied '
+                    'in the right direction')
     mod = db.modules.get(MUTIL)
     for fname in ('attribute_alias', 'partial_attribute_alias',
                   'attribute_transform'):
@@ -372,61 +408,89 @@ def aliases(report, db):
             raise AnalysisError('%s: property(...) not found' % fname,
                                 fi.node, rel(fi.path))
         kw = {k.arg: k.value for k in calls[0].keywords}
-        if set(kw) != {'fget', 'fset', 'fdel'}:
+        for i, a in enumerate(calls[0].args[:3]):
+            kw[('fget', 'fset', 'fdel')[i]] = a
+        if set(kw) != {'fget', 'fset', 'fdel'} or not all(
+                isinstance(v, ast.Lambda) for v in kw.values()):
             report.violation(R, 'alias:%s:parts' % fname, fi.path, fi.node,
                              fi.qualname, 'the property lacks one of '
                              'fget/fset/fdel: %s' % sorted(kw))
             continue
-        name = fi.params[0]
-
-        def norm(lam):
-            return ast.unparse(lam.body)
-        g_, s_, d_ = norm(kw['fget']), norm(kw['fset']), norm(kw['fdel'])
-        if fname == 'attribute_alias':
-            want = ('getattr(self, %s)' % name,
-                    'setattr(self, %s, value)' % name,
-                    'delattr(self, %s)' % name)
-        elif fname == 'partial_attribute_alias':
-            part = fi.params[1]
-            want = ('getattr(getattr(self, %s), %s)' % (name, part),
-                    'setattr(getattr(self, %s), %s, value)' % (name, part),
-                    'delattr(getattr(self, %s), %s)' % (name, part))
-        else:
-            fo, to = fi.params[1], fi.params[2]
-            want = ('%s(getattr(self, %s))' % (fo, name),
-                    'setattr(self, %s, %s(value))' % (name, to),
-                    'delattr(self, %s)' % name)
-        if (g_, s_, d_) == want:
-            report.ok(R, '%s: %s / %s / %s' % (fname, g_, s_, d_))
-        else:
+        vname = kw['fset'].args.args[1].arg if len(
+            kw['fset'].args.args) > 1 else 'value'
+        ap = {k: access_path(v.body, vname) for k, v in kw.items()}
+        if None in ap.values():
+            raise AnalysisError('%s: alias lambdas are not getattr/setattr/'
+                                'delattr chains on self' % fname, fi.node,
+                                rel(fi.path))
+        paths = {k: v[1] for k, v in ap.items()}
+        kinds = {k: v[0] for k, v in ap.items()}
+        want_path = list(fi.params[:2] if fname == 'partial_attribute_alias'
+                         else fi.params[:1])
+        prob = []
+        if kinds != {'fget': 'get', 'fset': 'set', 'fdel': 'del'}:
+            prob.append('getter/setter/deleter do %s' % kinds)
+        for k, pth in sorted(paths.items()):
+            if pth != want_path:
+                prob.append('%s addresses self.%s instead of self.%s'
+                            % (k, '.'.join(pth), '.'.join(want_path)))
+        if fname == 'attribute_transform':
+            if ap['fget'][2] != fi.params[1] or ap['fset'][2] != fi.params[2]:
+                prob.append('transforms applied as get:%s set:%s; expected '
+                            'get:%s set:%s' % (ap['fget'][2], ap['fset'][2],
+                                               fi.params[1], fi.params[2]))
+        elif ap['fget'][2] or ap['fset'][2]:
+            prob.append('an alias must not transform the value')
+        if prob:
             report.violation(R, 'alias:%s' % fname, fi.path, fi.node,
-                             fi.qualname, 'getter/setter/deleter are %s; '
-                             'they must all address the aliased attribute: '
-                             '%s' % ((g_, s_, d_), want))
+                             fi.qualname, '; '.join(prob))
+        else:
+            report.ok(R, '%s: get/set/del all address self.%s' % (
+                fname, '.'.join(want_path)))
     fi = mod.funcs.get('multi_attribute_alias')
     if fi is None:
         raise AnalysisError('multi_attribute_alias vanished')
-    inner = {f.node.name: f for f in db.funcs if f.outer is fi}
-    src = {k: ast.unparse(v.node) for k, v in inner.items()}
     fns = [n for n in fi.node.body if isinstance(n, ast.FunctionDef)]
     if len(fns) != 3:
         raise AnalysisError('multi_attribute_alias: expected getter, setter '
                             'and deleter', fi.node, rel(fi.path))
-    getter, setter, deleter = [ast.unparse(f) for f in fns]
-    okk = ('for name in arg_names' in getter and
-           'kwd_names.items()' in getter and
-           'zip(arg_names, values)' in setter and
-           'setattr(self, name, value)' in setter and
-           'setattr(self, name, getattr(values, kwd))' in setter and
-           'chain(arg_names, kwd_names.values())' in deleter and
-           'delattr(self, name)' in deleter)
-    if okk:
-        report.ok(R, 'multi_attribute_alias: all three enumerate arg_names '
-                  'in order, then kwd_names')
+
+    def name_sources(fn):
+        """names iterated (in order) to address attributes of self"""
+        out = []
+        for n in ast.walk(fn):
+            if isinstance(n, (ast.For, ast.comprehension)):
+                out.append(ast.unparse(n.iter))
+        return out
+    g_, s_, d_ = [name_sources(f) for f in fns]
+    pos, kws = fi.node.args.vararg.arg, fi.node.args.kwarg.arg
+
+    def mentions(lst, what):
+        return [x for x in lst if what in x]
+    okk = (mentions(g_, pos) and mentions(g_, kws) and mentions(s_, pos)
+           and mentions(s_, kws) and mentions(d_, pos) and mentions(d_, kws))
+    # positional names pair with positional values in order (zip), keyword
+    # names with the attribute of the same key
+    setter = ast.unparse(fns[1])
+    okk = okk and ('zip(%s, ' % pos) in setter and 'reversed' not in \
+        ast.unparse(fi.node) and 'sorted' not in ast.unparse(fi.node)
+    getter_calls = [c for c in ast.walk(fns[0]) if isinstance(c, ast.Call)
+                    and ast.unparse(c.func) == 'getattr']
+    setter_calls = [c for c in ast.walk(fns[1]) if isinstance(c, ast.Call)
+                    and ast.unparse(c.func) == 'setattr']
+    deleter_calls = [c for c in ast.walk(fns[2]) if isinstance(c, ast.Call)
+                     and ast.unparse(c.func) == 'delattr']
+    on_self = all(ast.unparse(c.args[0]) == 'self'
+                  for c in setter_calls + deleter_calls) and any(
+        ast.unparse(c.args[0]) == 'self' for c in getter_calls)
+    if okk and on_self and getter_calls and setter_calls and deleter_calls:
+        report.ok(R, 'multi_attribute_alias: getter, setter and deleter '
+                  'enumerate %s in order, then %s' % (pos, kws))
     else:
         report.violation(R, 'alias:multi', fi.path, fi.node, fi.qualname,
                          'getter, setter and deleter of the multi-alias do '
-                         'not enumerate the same names in the same order')
+                         'not enumerate the same names (%s then %s) in the '
+                         'same order on self' % (pos, kws))
 
 
 # ---------------------------------------------------------------------------
